@@ -485,10 +485,14 @@ func (t *Collection) VisitItemsRandom(
 
 	for j := lenBlock + 1; j > 0; j-- {
 		for i, si := range blockStore {
+			if si == nil {
+				continue // This block ran into the end of the collection.
+			}
 			// The behaviour we want is to visit the first item in each of blockStore
 			// then on the second item update blockStore to point to that second item
 			// repeat for each item in the block
 			first := true
+			blockStore[i] = nil
 			vis := func(itm *Item, depth uint64) bool {
 
 				if first {
